@@ -60,6 +60,9 @@ var (
 	rAC   = rng{"a", "c"}    // {a, b}
 	rASub = rng{"a/", "a//"} // {a/b}
 	rST   = rng{"s", "t"}    // every key under the sequence prefix: s-<n>, s-<n>-<m>, s-$
+	// "a/c" sorts after "b" in the store's hierarchical order (more path segments) and before it bytewise:
+	// the range is wider than [a,b) although its end bound is the bytewise smaller one
+	rADeep = rng{"a", "a/c"} // {a, b, a/b}
 )
 
 // sequence prefix of the "refusals" alphabet and a key under it that is no sequence number
@@ -78,6 +81,8 @@ func inRange(r rng, key string) bool {
 		return key == "a" || key == "b"
 	case rASub:
 		return key == "a/b"
+	case rADeep:
+		return key == "a" || key == "b" || key == "a/b"
 	case rST:
 		return strings.HasPrefix(key, seqPrefix+"-")
 	}
@@ -335,6 +340,9 @@ func buildOps() []opDef {
 		}},
 		opDef{name: "deleteRange[a,c)+deleteRange[a,b)", build: func(*inst, int64) *proto.WriteRequest {
 			return &proto.WriteRequest{DeleteRanges: []*proto.DeleteRangeRequest{dr(rAC), dr(rAB)}}
+		}},
+		opDef{name: "deleteRange[a,b)+deleteRange[a,a/c)", build: func(*inst, int64) *proto.WriteRequest {
+			return &proto.WriteRequest{DeleteRanges: []*proto.DeleteRangeRequest{dr(rAB), dr(rADeep)}}
 		}},
 		opDef{name: "createSession", build: func(in *inst, off int64) *proto.WriteRequest {
 			if in.sessLive {
